@@ -458,7 +458,38 @@ def check_face_loops(run, funcs, pid):
                         run.violation('%s symmetric face integrals: %s (cell %d, neighbour %d, mask %r)' % (pid, bad, i_, j_, mask), engine.save_replay(pid, p))
                     else:
                         run.suspect.append('%s symmetric face loop: counterexample %r does not reproduce natively' % (pid, p))
+    structural = [x for x in run.suspect if x.startswith('%s face loop' % pid)]
+    if structural:
+        for prof in ('debug', 'release'):
+            bad = check_face_loops_native({'kind': 'face_loops'}, prof)
+            if bad:
+                run.violation('%s face-integral loops: %s (%s build)' % (pid, bad, prof), engine.save_replay(pid, {'kind': 'face_loops', 'profile': prof}))
+                run.suspect[:] = [x for x in run.suspect if x not in structural]
+                break
     run.bound('face loops: 3 planes, 5 tetrahedra in the order [0,1,0,2,1]; labels enumerated x symbolic indices/mask')
+
+
+def check_face_loops_native(p, profile='debug'):
+    """the three face producers of the library on the same cells (4 generators, mask [1,0,1,1]) in 1D/2D/3D, periodic or not:
+    the non-symmetric loop must report the same faces (count, total area) as the compact tessellation lists for that cell, and the
+    symmetric loop as many faces as the tessellation stores"""
+    for dim in (3, 2, 1):
+        for per in (0, 1):
+            o = engine.native(['face_loops_vs_faces %d %d' % (dim, per)], profile)[0]
+            if o[0] != 'ok':
+                return 'native run panicked (dim %d, periodic %d): %s' % (dim, per, ' '.join(o[1:8]))
+            txt = ' '.join(o[1:])
+            cells, tail = txt.split('|')
+            t = cells.split()
+            for k in range(0, len(t), 5):
+                c, nst, ast, nns, ans = int(t[k]), int(t[k + 1]), float(t[k + 2]), int(t[k + 3]), float(t[k + 4])
+                if nst != nns or abs(ast - ans) > 1e-9 * max(1.0, ast):
+                    return '%dD%s: cell %d has %d faces of total area %.9g in the tessellation but compute_face_integrals reports %d faces of total area %.9g' % (
+                        dim, ' periodic' if per else '', c, nst, ast, nns, ans)
+            nsy, nfaces = (int(x) for x in tail.split())
+            if nsy != nfaces:
+                return '%dD%s: compute_face_integrals_sym reports %d faces, the tessellation stores %d' % (dim, ' periodic' if per else '', nsy, nfaces)
+    return None
 
 
 def check_sym_loop_native(p, profile='debug'):
@@ -596,6 +627,8 @@ def replay(d):
         bad = check_sym_loop_native(d)
     elif k == 'normalisation':
         bad = check_normalisation_native(d)
+    elif k == 'face_loops':
+        bad = check_face_loops_native(d, d.get('profile', 'debug'))
     else:
         raise Inconclusive('unknown replay kind ' + k)
     print(bad)
